@@ -85,7 +85,14 @@ result.  `acquirePartitionLeases` turns the non-nil results into a map; a partit
 counts as "lease fine" (`leaseOf` defaults to nil) — which is only sound because every requested
 partition did get an attempt (`acquireAll_covers_every_partition`, `acquireAll_nil_owned`).
 The acquires run concurrently in the code; they touch different resources, so the sequential fold
-yields the same results (request partitions are assumed pairwise distinct). -/
+yields the same results (request partitions are assumed pairwise distinct).
+
+CANCELLATION.  `AcquireAll` takes the caller's `ctx`.  `cancel p = some k` means: ctx is done after `k` further steps of
+the Acquire of partition `p`.  A cancelled Acquire stops where it is (what it already wrote to etcd stays, `Op.abort`) and its
+result is an ERROR — never nil: `AcquireAll` joins every Acquire it started before it returns, so a slot is always written from
+the return value of its Acquire call (static tie: `KafVerif.C19.acquireAll_no_zero_value_result` on the regenerated skeleton
+of `AcquireAll`).  A variant that stops collecting on `ctx.Done()` and returns the slots still at their zero value would make
+`cancelAcquire … 0` answer `some .ok`, which `acquireAll_nil_owned` refutes. -/
 
 def isTxnPC : PC → Bool
   | .txn _ => true
@@ -111,17 +118,44 @@ def runAcquire (l : Lease.State) (b r : Nat) (fail : Bool) : Lease.State × Opti
   | (l1, some x) => (l1, some x)
   | (l1, none) => finishAcquire b r fail 12 l1
 
-/-- `AcquireAll` as a map over the request's partitions -/
-def acquireAll (b : Nat) (fail : Bool) : Lease.State → List Nat → Lease.State × List (Nat × LeaseRes)
+/-- the in-flight acquire `(b, r)` when ctx is done after `k` further steps: it finishes if it gets there first, otherwise it
+is abandoned where it stands and the call returns the context error -/
+def cancelAcquire (b r : Nat) : Nat → Lease.State → Lease.State × Option Res
+  | 0, l => ((Lease.step .byRev l (.abort b r)).1, some .err)
+  | k + 1, l =>
+    match l.acq b r with
+    | none => (l, none)
+    | some _ =>
+      match Lease.step .byRev l (.step b r) with
+      | (l', some x) => (l', some x)
+      | (l', none) => cancelAcquire b r k l'
+
+/-- one `Acquire(ctx, r)` call of broker `b` whose ctx is done after `k` steps -/
+def runAcquireCancel (l : Lease.State) (b r k : Nat) : Lease.State × Option Res :=
+  match Lease.step .byRev l (.acquire b r) with
+  | (l1, some x) => (l1, some x)
+  | (l1, none) => cancelAcquire b r k l1
+
+/-- the Acquire of partition `r` inside `AcquireAll`, with or without cancellation -/
+def acquireOne (l : Lease.State) (b r : Nat) (fail : Bool) : Option Nat → Lease.State × Option Res
+  | none => runAcquire l b r fail
+  | some k => runAcquireCancel l b r k
+
+/-- `AcquireAll` as a map over the request's partitions (`cancel p`: see above) -/
+def acquireAll (b : Nat) (fail : Bool) (cancel : Nat → Option Nat) :
+    Lease.State → List Nat → Lease.State × List (Nat × LeaseRes)
   | l, [] => (l, [])
   | l, p :: ps =>
     if owns l b p then
-      let r := acquireAll b fail l ps
+      let r := acquireAll b fail cancel l ps
       (r.1, (p, .nil) :: r.2)
     else
-      let a := runAcquire l b p fail
-      let r := acquireAll b fail a.1 ps
+      let a := acquireOne l b p fail (cancel p)
+      let r := acquireAll b fail cancel a.1 ps
       (r.1, (p, ofRes a.2) :: r.2)
+
+/-- no cancellation (ctx outlives the call) -/
+def noCancel : Nat → Option Nat := fun _ => none
 
 /-- `leaseErrors[partition]`: no entry = no error -/
 def leaseOf (results : List (Nat × LeaseRes)) (p : Nat) : LeaseRes :=
@@ -131,9 +165,9 @@ def leaseOf (results : List (Nat × LeaseRes)) (p : Nat) : LeaseRes :=
 
 /-- the lease/health gating of one produce request: leases for ALL partitions first, then the
 per-partition decision list (`env p` = everything but the lease result) -/
-def produceRequest (b : Nat) (fail : Bool) (env : Nat → PartIn) (l : Lease.State) (parts : List Nat) :
-    Lease.State × List (Nat × PartOut) :=
-  let a := acquireAll b fail l parts
+def produceRequest (b : Nat) (fail : Bool) (cancel : Nat → Option Nat) (env : Nat → PartIn) (l : Lease.State)
+    (parts : List Nat) : Lease.State × List (Nat × PartOut) :=
+  let a := acquireAll b fail cancel l parts
   (a.1, parts.map fun p => (p, producePart { env p with lease := leaseOf a.2 p }))
 
 /-! ### interleaved system: lease protocol steps ∥ one handler per broker -/
